@@ -231,3 +231,28 @@ pub fn temp_lang(grammar_json: &str, opt: OptLevel) -> Result<TempLang, String> 
     let _ = std::fs::remove_file(&so);
     Ok(TempLang { language: ld.language, c_code: c, so, _lib: ld.lib })
 }
+
+/// Run the generator the way the CLI does (grammar.json in a directory -> parser.c + node-types.json in out_dir).
+pub fn generate_dir(grammar_json: &str, work: &Path, out_name: &str, opt: OptLevel) -> Result<(Vec<u8>, Vec<u8>), String> {
+    let src = work.join("src");
+    std::fs::create_dir_all(&src).map_err(|e| e.to_string())?;
+    let gpath = src.join("grammar.json");
+    if !gpath.exists() {
+        std::fs::write(&gpath, grammar_json).map_err(|e| e.to_string())?;
+    }
+    let out = work.join(out_name);
+    let mut diags = Vec::new();
+    tree_sitter_generate::generate_parser_in_directory(work.to_path_buf(), Some(out.clone()), Some(gpath), tree_sitter::LANGUAGE_VERSION, None, None, true, opt, &mut diags).map_err(|e| format!("{e}"))?;
+    let c = std::fs::read(out.join("parser.c")).map_err(|e| e.to_string())?;
+    let n = std::fs::read(out.join("node-types.json")).map_err(|e| e.to_string())?;
+    Ok((c, n))
+}
+
+/// node-types.json text for a grammar (generated in a scratch directory)
+pub fn node_types_json(grammar_json: &str) -> Result<String, String> {
+    let d = work_dir().join(format!("nt-{}-{:x}", std::process::id(), fnv(grammar_json.as_bytes())));
+    let _ = std::fs::remove_dir_all(&d);
+    let r = generate_dir(grammar_json, &d, "out", OptLevel::default());
+    let _ = std::fs::remove_dir_all(&d);
+    r.map(|(_, n)| String::from_utf8_lossy(&n).into_owned())
+}
